@@ -144,6 +144,12 @@ def run_unit(unit, acc):
                 if ln == 2 and (sel[0] + sel[1]) % 5:   # every single pair, and a fixed fifth of the ordered two-element lists
                     continue
                 check_case(dict(kind="results", pairs=[list(pairs[i]) for i in sel], seed=seed), acc)
+        if k == 0:
+            # two results whose estimates coincide (same pose, label, time) but carry different confidences, in both orders, with a third one
+            for e in range(len(pool)):
+                for g in (None, (e + 1) % len(pool)):
+                    for scores in ([0.95, 0.05, 0.7], [0.05, 0.95, 0.7], [0.55, 0.45, 0.05]):
+                        check_case(dict(kind="results", pairs=[[e, g], [e, None], [(e + 2) % len(pool), None]], scores=scores, seed=seed), acc)
     elif unit["kind"] == "long":
         for fr in ("base_link", "map"):
             for is_gt in (False, True):
@@ -308,8 +314,10 @@ def check_case(case, acc):
         for frame in ("base_link", "map"):
             tf = G.transforms(ego)
             res, refs = [], []
-            for e, g in case["pairs"]:
+            for pi_, (e, g) in enumerate(case["pairs"]):
                 es = dict(pool[e], attrs=[], name=pool[e]["name"].replace("ign_", ""))
+                if case.get("scores"):
+                    es["score"] = case["scores"][pi_]
                 eo = G.mk3d(es, frame, ego)
                 go = None if g is None else G.mk3d(dict(pool[g], score=1.0), frame, ego)
                 res.append(DynamicObjectWithPerceptionResult(eo, go, transforms=tf))
